@@ -11,7 +11,8 @@ the file format or of the reader, not of the writer):
     parallel to the LDR faces; BModel.phys_keyvalues is None exactly when there are no physics solids;
   * static-prop fields that a format version does not store hold the value its reader substitutes;
   * entity values with exactly four commas that would parse as an output are not used as plain keyvalues, output
-    delays have at most 6 significant digits (text format `%g`).
+    delays have at most 6 significant digits (text format `%g`); they are floats, Python ints or bools (the constructor does not
+    convert them), times are Python ints.
 """
 from __future__ import annotations
 
